@@ -254,20 +254,58 @@ func ruleDeadlineDirection(c *Ctx, r *R) {
 			}
 		}
 		r.ok(exact, key+"|remaining-exact", al.Pos(), "remaining must be exactly the time until ctx's deadline (time.Until(deadline)); rounding or offsetting it moves the boundary of 'deadline closer than d'")
-		// guard direction
-		dir := false
-		hasDeadline := false
-		for _, g := range guardsOf(b) {
-			if cf, ok := g.asCmp(); ok {
-				if (cf.x == R && cf.y == D && (cf.op == token.LSS || cf.op == token.LEQ)) || (cf.x == D && cf.y == R && (cf.op == token.GTR || cf.op == token.GEQ)) {
-					dir = true
+		// guard direction: at the place the value is built, or - the would-be error is built first and returned only `if
+		// tooSoon.applies()` - at every return that reports it (the helper's comparison is read through the call)
+		env := provEnv{chain: chain}
+		wantLT := []string{symOf(R, env).String() + " < " + symOf(D, env).String(), symOf(R, env).String() + " <= " + symOf(D, env).String(),
+			symOf(D, env).String() + " > " + symOf(R, env).String(), symOf(D, env).String() + " >= " + symOf(R, env).String()}
+		dirAt := func(blk *ssa.BasicBlock) (dir, hasDeadline bool) {
+			for _, g := range guardsOf(blk) {
+				if cf, ok := g.asCmp(); ok {
+					if (cf.x == R && cf.y == D && (cf.op == token.LSS || cf.op == token.LEQ)) || (cf.x == D && cf.y == R && (cf.op == token.GTR || cf.op == token.GEQ)) {
+						dir = true
+					}
+				}
+				// ... or a comparison a boolean helper reported (tooSoon.applies()): read in the helper's frame, its parameters
+				// standing for the call's arguments
+				if cf, ok := g.asCmp(); ok && cf.via != nil {
+					e2 := cf.env()
+					e2.chain = append(append([]*ssa.Call{}, chain...), e2.chain...)
+					fs := symDeref(cf.x, e2).String() + " " + cf.op.String() + " " + symDeref(cf.y, e2).String()
+					for _, w := range wantLT {
+						if fs == w {
+							dir = true
+						}
+					}
+				}
+				if v, val := g.boolVal(); val {
+					if ex, ok := v.(*ssa.Extract); ok && ex.Index == 1 {
+						if dc, ok := ex.Tuple.(*ssa.Call); ok && dc.Call.IsInvoke() && dc.Call.Method.Name() == "Deadline" {
+							hasDeadline = true
+						}
+					}
 				}
 			}
-			if v, val := g.boolVal(); val {
-				if ex, ok := v.(*ssa.Extract); ok && ex.Index == 1 {
-					if dc, ok := ex.Tuple.(*ssa.Call); ok && dc.Call.IsInvoke() && dc.Call.Method.Name() == "Deadline" {
-						hasDeadline = true
-					}
+			return
+		}
+		dir, hasDeadline := dirAt(b)
+		if !dir {
+			var reportBlocks []*ssa.BasicBlock
+			instrs(al.Parent(), func(rb *ssa.BasicBlock, _ int, in2 ssa.Instruction) {
+				ret, ok := in2.(*ssa.Return)
+				if !ok || len(ret.Results) == 0 {
+					return
+				}
+				v := stripChange(returnedValue(ret, len(ret.Results)-1))
+				if ld, ok := v.(*ssa.UnOp); ok && ld.Op == token.MUL && ld.X == ssa.Value(al) {
+					reportBlocks = append(reportBlocks, rb)
+				}
+			})
+			if len(reportBlocks) > 0 {
+				dir, hasDeadline = true, true
+				for _, rb := range reportBlocks {
+					d2, h2 := dirAt(rb)
+					dir, hasDeadline = dir && d2, hasDeadline && h2
 				}
 			}
 		}
@@ -786,6 +824,9 @@ func dependsOnField(v ssa.Value, field string, depth int) bool {
 		return false
 	}
 	switch x := v.(type) {
+	case *ssa.Parameter:
+		// the period handed to schedule as arguments instead of being kept in fields
+		return periodRole(x) == field
 	case *ssa.UnOp:
 		if x.Op == token.MUL {
 			if fa, ok := x.X.(*ssa.FieldAddr); ok && fieldName(fa.X.Type(), fa.Field) == field {
@@ -914,10 +955,14 @@ func ruleValidationSiblings(c *Ctx, r *R) {
 	for _, di := range deepInstrs(sch, 2) {
 		switch x := di.in.(type) {
 		case *ssa.BinOp:
-			if x.Op == token.SUB && strings.HasSuffix(path(x.Y), ".jitter") {
-				xs := path(x.X)
-				if strings.Contains(xs, "Int63n") && strings.Contains(xs, ".jitter*2") {
-					okFormula = true
+			if jy := path(stripConvs(x.Y)); x.Op == token.SUB && (strings.HasSuffix(jy, ".jitter") || isJitterParam(resolveVal(stripConvs(x.Y)))) {
+				// Int63n(2·jitter) − jitter, the product written either way round, the same jitter on both sides
+				if rc, ok := stripConvs(x.X).(*ssa.Call); ok && len(rc.Call.Args) > 0 && strings.HasSuffix(calleeName(&rc.Call), "Int63n") {
+					if mul, ok := stripConvs(rc.Call.Args[len(rc.Call.Args)-1]).(*ssa.BinOp); ok && mul.Op == token.MUL {
+						if (path(stripConvs(mul.X)) == jy && isConstInt(mul.Y, 2)) || (isConstInt(mul.X, 2) && path(stripConvs(mul.Y)) == jy) {
+							okFormula = true
+						}
+					}
 				}
 			}
 		case *ssa.Call:
@@ -975,6 +1020,33 @@ var _ = late(func() {
 			for f := range read {
 				if !written[f] {
 					params[f] = true
+				}
+			}
+			// the period is not kept in fields at all but handed to schedule as arguments (schedule(d, jitter)): nothing can be
+			// stored too late; what must hold instead is that every caller hands over its OWN period - Reset and
+			// NewJitterTicker their validated parameters, the timer callback the values schedule itself was given - each in
+			// its role
+			for pi, sp := range sch.Params {
+				role := periodRole(sp)
+				if role == "" {
+					continue
+				}
+				for _, fn := range c.funcsOfPkg("xtime") {
+					k := 0
+					name := c.nameOf(fn)
+					instrs(fn, func(_ *ssa.BasicBlock, _ int, in ssa.Instruction) {
+						call, ok := in.(*ssa.Call)
+						if !ok || staticCallee(&call.Call) != sch || pi >= len(call.Call.Args) {
+							return
+						}
+						k++
+						a := resolveVal(call.Call.Args[pi])
+						good := false
+						if ap, isP := a.(*ssa.Parameter); isP {
+							good = periodRole(ap) == role && (rootFn(fn) == sch || ap.Parent() == fn)
+						}
+						r.ok(good, name+"|period-arg:"+role+"#"+itoa(k), call.Pos(), "schedule must be handed the caller's own "+role+" (the validated parameter, or - in the timer callback - the value this schedule call was given): found "+path(a))
+					})
 				}
 			}
 			for _, fn := range c.funcsOfPkg("xtime") {
@@ -1060,3 +1132,65 @@ var _ = late(func() {
 			}
 		}})
 })
+
+
+// symDeref: symOf, with a leaf that names a field of a local struct variable which is assigned exactly once (tooSoon :=
+// DeadlineTooSoonError{remaining: …, d: d}) replaced by the expression assigned to that field.
+func symDeref(v ssa.Value, env provEnv) *sx {
+	pv := valueProv(v, env)
+	if al, ok := pv.root.(*ssa.Alloc); ok && len(pv.fields) == 1 {
+		var val ssa.Value
+		n := 0
+		for _, ref := range refsOf(al) {
+			fa, ok := ref.(*ssa.FieldAddr)
+			if !ok || fieldName(fa.X.Type(), fa.Field) != pv.fields[0] {
+				continue
+			}
+			for _, r2 := range refsOf(fa) {
+				if st, ok := r2.(*ssa.Store); ok && st.Addr == ssa.Value(fa) {
+					val = st.Val
+					n++
+				}
+			}
+		}
+		if n == 1 {
+			e2 := env
+			e2.chain = pv.chain
+			return symOf(val, e2)
+		}
+	}
+	return symOf(v, env)
+}
+
+
+// periodRole: p is one of exactly two time.Duration parameters of its function: the first is the period d, the second the
+// jitter (the order NewJitterTicker, Reset - and a schedule that is handed the period - share); "" otherwise.
+func periodRole(p *ssa.Parameter) string {
+	fn := p.Parent()
+	if fn == nil {
+		return ""
+	}
+	var durs []*ssa.Parameter
+	for _, q := range fn.Params {
+		if isNamedType(q.Type(), "time", "Duration") {
+			if _, isPtr := q.Type().(*types.Pointer); !isPtr {
+				durs = append(durs, q)
+			}
+		}
+	}
+	if len(durs) != 2 {
+		return ""
+	}
+	switch p {
+	case durs[0]:
+		return "d"
+	case durs[1]:
+		return "jitter"
+	}
+	return ""
+}
+
+func isJitterParam(v ssa.Value) bool {
+	p, ok := v.(*ssa.Parameter)
+	return ok && periodRole(p) == "jitter"
+}
